@@ -201,6 +201,14 @@ theorem C18_id_is_mac (i : Info) :
     lookup "md" (advertData i) = some (String.ofList (validName i.display)) := by
   simp [advertData, lookup]
 
+/-- The record has exactly the nine HAP keys, each once and in this order (so no `lookup` above is
+    shadowed by an earlier duplicate), with the fixed protocol fields. -/
+theorem C18_txt_record_shape (i : Info) :
+    (advertData i).map Prod.fst = ["md", "pv", "id", "c#", "s#", "ff", "ci", "sf", "sh"] ∧
+    lookup "pv" (advertData i) = some "1.1" ∧ lookup "s#" (advertData i) = some "1" ∧
+    lookup "ff" (advertData i) = some "0" ∧ lookup "sh" (advertData i) = some i.setupHash := by
+  simp [advertData, lookup]
+
 /-! ## ordering of the refresh -/
 
 /-- In every trace of the response-processing model (any pairing table, any verified sessions,
@@ -432,6 +440,17 @@ theorem C18_pin_in_range (pin : List Char) (hd : ∀ c ∈ pin, c = '-' ∨ isDi
     (h8 : (pin.filter fun c => c ≠ '-').length ≤ 8) : pinValue pin < 100000000 :=
   pinValue_lt pin hd h8
 
+/-- The whole chain for every pincode in the `xxx-xx-xxx` shape (digits and dashes, at most eight
+    digits — evaluated by the check on what `util.generate_pincode` produces), every category
+    below 256 and every setup id: the setup payload decodes to the accessory's category, the
+    number the pincode denotes, and the setup id. -/
+theorem C18_xhm_pin_roundtrip (category : Nat) (pin setupId : List Char) (hcat : category < 256)
+    (hp : PinShape pin) :
+    xhmDecode (xhmUri category (pinValue pin) setupId)
+      = some { version := 0, reserved := 0, category := category, flags := 2, code := pinValue pin,
+               setupId := setupId } :=
+  C18_xhm_roundtrip category (pinValue pin) setupId hcat (pinValue_lt pin hp.1 hp.2)
+
 /-! ## names -/
 
 /-- For every display name (any list of Unicode scalar values) and every well-formed MAC, the
@@ -445,6 +464,29 @@ theorem C18_names_valid (display mac : List Char) (hmac : WfMac mac) :
   obtain ⟨n1, n2, n3, n4, _⟩ := validName_spec display
   obtain ⟨v1, v2, v3, v4, _⟩ := validHostName_spec display
   exact ⟨instanceLabel_valid _ _ n1 n2 n3 n4 hs, hostLabel_valid _ _ v1 v2 v3 v4 hs⟩
+
+/-- The same under the weaker, decidable hypothesis on the MAC that the proof actually uses (its
+    last eight characters hold six hexadecimal digits besides colons); the check evaluates this
+    hypothesis on the MACs `util.generate_mac` really produces. -/
+theorem C18_names_valid_mac_tail (display mac : List Char) (hmac : MacTailOk mac) :
+    ValidInstanceLabel (instanceLabel (validName display) mac) ∧
+    ValidHostLabel (hostLabel (validHostName display) mac) := by
+  obtain ⟨n1, n2, n3, n4, _⟩ := validName_spec display
+  obtain ⟨v1, v2, v3, v4, _⟩ := validHostName_spec display
+  exact ⟨instanceLabel_valid _ _ n1 n2 n3 n4 hmac, hostLabel_valid _ _ v1 v2 v3 v4 hmac⟩
+
+/-- The sanitisers see a display name only through the class `[A-Za-z0-9-]`: replacing every
+    symbol outside the class by any other symbol outside the class changes nothing. So nothing
+    depends on *which* foreign symbols a name contains — any script, emoji, control character or
+    white space, and also a lone surrogate of a Python `str` (which is not a Unicode scalar value
+    and crosses the line protocol as U+0000) behave alike. -/
+theorem C18_names_depend_on_class_only (f : Char → Char) (hf1 : ∀ c, okChar c = true → f c = c)
+    (hf2 : ∀ c, okChar c = false → okChar (f c) = false) (display : List Char) :
+    validName (display.map f) = validName display ∧
+    validHostName (display.map f) = validHostName display := by
+  unfold validName validHostName validNameLegacy validHostNameLegacy
+  rw [subInvalid_map f hf1 hf2]
+  exact ⟨rfl, rfl⟩
 
 /-- The sanitised names themselves: non-empty, at most 56 characters, only `[A-Za-z0-9-]`
     (plus single spaces in `md`), no space or dash at either end. -/
@@ -517,5 +559,26 @@ example : (run (init ⟨['x'], 1, [], 1, false, ""⟩ [(7, true)] [(1, 7)])
     = [(2, 0, 0), (0, 1, 0)] := by decide
 example : (run (init ⟨['x'], 1, [], 1, false, ""⟩ [(7, true)] [(1, 7)])
     [.request 1 (.removePairing 7)]).closed = [1] := by decide
+
+/-- the hypotheses of `C18_pairing_step_schedules_refresh` are satisfiable: the last admin removes
+    itself (the non-admin goes with it), and the first controller pairs -/
+example : (handle [(7, true), (8, false)] (some 7) (.removePairing 7)).1.isEmpty
+    ≠ ([(7, true), (8, false)] : Pairings).isEmpty := by decide
+example : (handle [] none (.pairSetupM5 7 true)).1.isEmpty ≠ ([] : Pairings).isEmpty := by decide
+/-- a trace with application calls: config_changed at 65535 wraps the advertised number to 1 -/
+example : (run (init ⟨['x'], 1, [], 65535, false, ""⟩ [] [])
+    [.request 0 (.pairSetupM5 7 true), .configChanged, .execRun 0, .loopRun 0, .loopRun 0]).log.map
+      (fun o => match o with
+        | .write c r => (0, c, r, "") | .cipher c r => (1, c, r, "")
+        | .publish r t => (2, 0, r.getD 99, (lookup "c#" t).getD "?" ++ "/" ++ (lookup "sf" t).getD "?"))
+    = [(2, 0, 0, "1/0"), (2, 0, 99, "1/0"), (0, 0, 0, "")] := by decide
+example : MacTailOk "AA:BB:CC:7A:8F:A9".toList := by decide
+example : PinShape "031-45-154".toList := by decide
+example : okChar 'é' = false ∧ okChar (Char.ofNat 0) = false := by decide
+/-- a whole life: first start, a value change, a restart with the same structure (kept), a restart
+    with one more service (moved), `config_changed` -/
+example : (AdvertLife.run lifeExH AdvertLife.life0
+    [.restart lifeExA, .value 1 2 (fun v => v + 1), .restart lifeExA, .restart lifeExB, .configChanged]).st.cfg = 4 := by
+  decide
 
 end Hap.Advert
